@@ -112,7 +112,10 @@ func (evt *catchEvent) NextAction(ctx context.Context, flow Flow) chan IAction {
 		go evt.run(ctx, sender)
 	})
 
-	response := make(chan IAction)
+	// buffered: the waiting flow may be gone by the time the event arrives
+	// (an alternative withdrawn by an event-based gateway, an interrupted
+	// activity); the node must not block forever handing it the action
+	response := make(chan IAction, 1)
 	evt.mch <- nextActionMessage{response: response, flow: flow}
 	return response
 }
